@@ -50,7 +50,7 @@ func (propC12) Gen(r *Rng, tier string) *World {
 	w := &World{Prop: "C12"}
 	w.Prog = g.Program()
 	w.Cfg = g.C
-	w.Cfg.Event = []string{"report", "debug"}[r.Intn(2)]
+	w.Cfg.Event = []string{"report", "debug", "both"}[r.Intn(3)]
 	w.Cfg.ViaDirect = r.P(0.2)
 	w.Cfg.DirStyle = r.Intn(6)
 	w.Cfg.ViaAPI = r.P(0.4)
@@ -75,6 +75,7 @@ func (propC12) Gen(r *Rng, tier string) *World {
 			}
 		}
 	}
+	p.CtxDone = r.P(0.2)
 	w.Calls = []Plan{p}
 	// further calls on the same Expr, with other bindings: events of earlier
 	// calls are retained while later calls run
